@@ -463,11 +463,29 @@ func c09Singles(c *enumx.Ctx) {
 	o := otherRecs(t, "")
 	eoe := recDesc{"EOE", ""}
 	bad := [][]recDesc{nil, {}, {eoe}, {o["CWD"], o["PATH0"]}, {o["PATH0"], o["PATH1"], o["CWD"]}, {o["AVC"], o["CWD"], o["PATH0"], o["PROCTITLE"]}, {o["EXECVE"], o["CWD"], eoe}, {o["CWD"], o["PROCTITLE"], eoe}}
+	// ... also when the records after the first carry no field at all (placeholders, empty bodies): it is still a
+	// multi-record group without a SYSCALL record
+	firsts := []recDesc{{"USER_CMD", "pid=1 uid=0 auid=0 ses=1 msg='cwd=\"/\" cmd=6C73 terminal=pts/0 res=success'"}, o["AVC"], o["CWD"], {"LOGIN", "pid=1 uid=0 old auid=4294967295 new auid=0 old ses=4294967295 new ses=1 res=1"}, {"USER_LOGIN", "pid=1 uid=0 auid=0 ses=1 msg='op=login acct=\"a\" exe=\"/x\" hostname=? addr=? terminal=ssh res=success'"}}
+	empties := []recDesc{{"CWD", "cwd=(null)"}, {"PROCTITLE", "proctitle=(null)"}, {"PATH", ""}, {"UNKNOWN[1399]", ""}, {"MQ_NOTIFY", "a=?"}, {"CWD", ""}}
+	for _, f := range firsts {
+		for _, e1 := range empties {
+			bad = append(bad, []recDesc{f, e1}, []recDesc{f, e1, eoe}, []recDesc{e1, f})
+			for _, e2 := range empties[:3] {
+				bad = append(bad, []recDesc{f, e1, e2})
+			}
+		}
+	}
 	for i, rs := range bad {
 		if !c.Mine() {
 			continue
 		}
 		desc := fmt.Sprintf("error-side group #%d (%d records, no SYSCALL)", i, len(rs))
+		if len(rs) > 0 {
+			desc += fmt.Sprintf(": %s %q ...", rs[0].Type, rs[0].Body)
+			if len(rs) > 1 {
+				desc += fmt.Sprintf(" then %s %q", rs[1].Type, rs[1].Body)
+			}
+		}
 		c.Begin(func() string { return desc })
 		c.Try(tryProp(), func() {
 			msgs, ok := parseAll(c, rs)
@@ -930,6 +948,47 @@ func c09Relations(c *enumx.Ctx) {
 				rs = []recDesc{pt, sc, {"EXECVE", ex}}
 			}
 			run(fmt.Sprintf("EXECVE %q with process title %q (title %d, record order %d)", joined, title, ti, order), rs)
+		}
+	}
+	// one record's value is the upper-case hex spelling of another record's value for the same key (both are values)
+	for _, key := range []string{"comm", "exe", "key", "xk"} {
+		for _, v := range []string{"ab", "/bin/ls", "k1"} {
+			for _, auxType := range []string{"OBJ_PID", "MQ_NOTIFY", "CWD", "BPRM_FCAPS"} {
+				for _, hexFirst := range []bool{false, true} {
+					if !c.Mine() {
+						continue
+					}
+					t := &tagger{}
+					hx := strings.ToUpper(hex.EncodeToString([]byte(v)))
+					plain, coded := v, hx
+					if hexFirst {
+						plain, coded = hx, v
+					}
+					comm, exe := "tool", "/usr/bin/tool"
+					extra := ""
+					switch key {
+					case "comm":
+						comm = plain
+					case "exe":
+						exe = plain
+					default:
+						extra = " " + key + "=" + plain
+					}
+					if strings.ContainsAny(comm+exe, " \"") {
+						continue
+					}
+					sc := sysRec(t, 62, comm, exe)
+					sc.Body += extra
+					aux := recDesc{auxType, fmt.Sprintf("opid=%s %s=%s xq=%s", t.v(), key, coded, t.v())}
+					for _, auxFirst := range []bool{false, true} {
+						rs := []recDesc{sc, aux}
+						if auxFirst {
+							rs = []recDesc{aux, sc}
+						}
+						run(fmt.Sprintf("SYSCALL %s=%q and a %s record with %s=%q (one is the hex spelling of the other; aux first: %v)", key, plain, auxType, key, coded, auxFirst), rs)
+					}
+				}
+			}
 		}
 	}
 	// PATH names vs cwd vs exe
